@@ -840,6 +840,13 @@ func (m *OrderedMap) PopIterate(fn MapPopIterationFunc) error {
 		}
 	}
 
+	// If this map is a child, it notifies parent by invoking callback because
+	// this map is changed by removing all elements.
+	err = m.notifyParentIfNeeded()
+	if err != nil {
+		return err
+	}
+
 	return nil
 }
 
